@@ -627,7 +627,7 @@ class OPENQASMVisitor(Visitor):
 
         elif len(qubit_childs) == 2 and len(class_childs) == 2:
             # measure qubits to clbits
-            qubit_index = int(qubit_childs[1])
+            qubit_index = location[0]
             class_index = int(class_childs[1])
             measurements[qubit_index] = (class_reg_name, class_index)
             mph = MeasurementPlaceholder(cregs, measurements)
